@@ -163,6 +163,9 @@ func PrevLabel(s string, n int) (i int, start bool) {
 	if s[l] == '.' {
 		l--
 	}
+	if l < 0 {
+		return 0, true // the root name has no label to step to
+	}
 
 	for ; l >= 0 && n > 0; l-- {
 		if s[l] != '.' {
